@@ -161,3 +161,36 @@ func smpDeviantAborts(c *Ctx) {
 		}
 	}
 }
+
+// the user's key list changes while a session is up (a new key is added in front, the list is reordered): the secret
+// stays bound to the key the session was authenticated with, so equal secrets still give success on both sides
+func smpAfterKeyListChange(c *Ctx) {
+	sec := []byte("same secret")
+	for _, pol := range []int{polV3, polV2} {
+		for who := 1; who <= 2; who++ {
+			for variant := 0; variant < 2; variant++ {
+				pols := []int{pol, pol}
+				s := newSys(pols, c.R.U64())
+				if !s.Handshake(1, 2) {
+					continue
+				}
+				cur := partyKeys[who]
+				switch variant {
+				case 0:
+					s.ps[who].c.SetOurKeys([]otr3.PrivateKey{partyKeys[3], cur})
+				default:
+					s.ps[who].c.SetOurKeys([]otr3.PrivateKey{partyKeys[4], partyKeys[3], cur})
+				}
+				trig := fmt.Sprintf("v%d,party=%d,variant=%d", versionOf(pol), who, variant)
+				evA, evB := smpRun(c, s, 1, 2, "", sec, sec)
+				c.Count("smp-after-key-list-change")
+				c.Rep.Evaluations++
+				if s.panicked {
+					c.Violate("panic", "smp-key-list:"+trig, "panic in an SMP run after the key list changed", s.trace)
+				} else if !(has(evA, 6) && has(evB, 6)) {
+					c.Violate("honest-smp-failed", trig, fmt.Sprintf("after SetOurKeys put other keys in front of the session's key an honest run with equal secrets did not succeed (events %v / %v)", evA, evB), s.trace)
+				}
+			}
+		}
+	}
+}
